@@ -1,35 +1,293 @@
+// C12 — untrusted bytes never crash, hang or exhaust the process.
+//
+// Every listed entry point has one oracle function run<Target>(t, input) that
+// is driven (a) by a native fuzz target Fuzz<Target> and (b) by a rapid
+// property with structure-aware generators.  The oracle is inside guard():
+//
+//	(1) no panic (recover + evid.Fail),
+//	(2) bytes allocated by the call (runtime.MemStats.TotalAlloc delta, one
+//	    goroutine, GC independent) <= 1 MiB + 256 * len(input),
+//	(3) time is never a verdict: a call slower than a very generous budget is
+//	    re-run three times and, if it stays slow, reported as INCONCLUSIVE.
 package c12
 
 import (
-	"crypto/elliptic"
-	"encoding/asn1"
+	"encoding/hex"
 	"fmt"
-	"math/big"
+	"io"
+	"log/slog"
+	"os"
+	"runtime"
+	"runtime/debug"
+	"strings"
+	"sync"
 	"testing"
+	"time"
 
-	"github.com/gmrtd/gmrtd/cms"
-	"github.com/gmrtd/gmrtd/oid"
-	"github.com/osanderson/brainpool"
+	"verifharness/evid"
 )
 
-func TestProbe(t *testing.T) {
-	bp := brainpool.P192r1()
-	x, y := bp.ScalarBaseMult([]byte{7})
-	pt := elliptic.Marshal(bp, x, y)
-	curveOid, _ := asn1.Marshal(oid.OidBrainpoolP192r1)
-	algOid, _ := asn1.Marshal(oid.OidEcPublicKey)
-	spki := tl(0x30, tl(0x30, algOid, curveOid), tl(0x03, []byte{0}, pt))
-	r := new(big.Int).Set(bp.Params().N) // out of range for brainpoolP192r1, in range for P-192
-	type sig struct{ R, S *big.Int }
-	sg, _ := asn1.Marshal(sig{r, big.NewInt(1)})
-	func() {
-		defer func() {
-			if r := recover(); r != nil {
-				fmt.Printf("PANIC: %v\n", r)
-			}
-		}()
-		err := cms.VerifySignature(spki, oid.OidHashAlgorithmSHA256, make([]byte, 32), oid.OidEcdsaWithSHA256, sg)
-		fmt.Println("err:", err)
+const prop = "C12"
+
+var fuzzing = os.Getenv("VERIF_FUZZING") == "1"
+
+func TestMain(m *testing.M) {
+	// The library logs through log/slog.  Keep the default level (Info) but do
+	// not write megabytes of warnings to stderr.
+	slog.SetDefault(slog.New(slog.NewTextHandler(io.Discard, &slog.HandlerOptions{Level: slog.LevelInfo})))
+	loadGenuine()
+	buildFixtures()
+	buildPools()
+	warmup()
+	evid.Main(m, prop)
+}
+
+// TB is what guard needs from *testing.T / *rapid.T.
+type TB interface {
+	Helper()
+	Fatalf(format string, args ...any)
+	Logf(format string, args ...any)
+}
+
+const (
+	allocBase    = 1 << 20
+	allocPerByte = 256
+)
+
+func allocBound(inLen int) uint64 { return allocBase + allocPerByte*uint64(inLen) }
+
+// timeBudget: 5 s for inputs up to 100 KiB, growing linearly beyond.
+func timeBudget(inLen int) time.Duration {
+	b := 5 * time.Second
+	if inLen > 100<<10 {
+		b = time.Duration(float64(b) * float64(inLen) / float64(100<<10))
+	}
+	return b
+}
+
+func protect(fn func()) (pv any, stack string) {
+	defer func() {
+		if r := recover(); r != nil {
+			pv = r
+			stack = stackHead(string(debug.Stack()))
+		}
 	}()
-	fmt.Printf("spki=%x sig=%x\n", spki, sg)
+	fn()
+	return nil, ""
+}
+
+// stackHead keeps the frames between the panic and the harness.
+func stackHead(s string) string {
+	lines := strings.Split(s, "\n")
+	var out []string
+	seenPanic := false
+	for i := 0; i < len(lines); i++ {
+		ln := lines[i]
+		if strings.HasPrefix(ln, "panic(") {
+			seenPanic = true
+			i++ // skip its file line
+			continue
+		}
+		if !seenPanic {
+			continue
+		}
+		if strings.Contains(ln, "verifharness/") {
+			break
+		}
+		out = append(out, strings.TrimSpace(ln))
+		if len(out) >= 16 {
+			break
+		}
+	}
+	return strings.Join(out, " | ")
+}
+
+var (
+	statMu   sync.Mutex
+	maxRatio = map[string]float64{} // target -> max alloc/len seen
+	maxNsB   = map[string]float64{} // target -> max ns/byte seen (inputs >= 256 bytes)
+)
+
+func hx(b []byte) string { return hex.EncodeToString(b) }
+
+// guard runs one library call under the oracle.  target names the entry
+// point, inLen is the number of untrusted bytes the call consumes, repro
+// returns a JSON-able description sufficient to repeat the call by hand.
+func guard(t TB, target string, inLen int, repro func() map[string]any, fn func()) {
+	t.Helper()
+	guardN(t, target, false, func() int { return inLen }, repro, fn)
+}
+
+// guardPK is guard for calls that may do public-key arithmetic (signature
+// verification, ECDH on math/big curves).  One such operation produces 0.5-10
+// MB of short-lived small-object garbage that has nothing to do with the input
+// length, so for these calls the bound 1 MiB + 256*len applies to the bytes
+// allocated in BIG objects (larger than the biggest size class reported in
+// runtime.MemStats.BySize, ~19 KiB) — which is what a length-lying encoding or
+// an amplification produces — and the total is recorded as a metric only.
+func guardPK(t TB, target string, inLen int, repro func() map[string]any, fn func()) {
+	t.Helper()
+	guardN(t, target, true, func() int { return inLen }, repro, fn)
+}
+
+func smallBytes(m *runtime.MemStats) (n uint64) {
+	for i := range m.BySize {
+		n += m.BySize[i].Mallocs * uint64(m.BySize[i].Size)
+	}
+	return
+}
+
+// guardN: the input length is evaluated after the call (live reader: the
+// number of bytes the chip sent is known only afterwards).
+func guardN(t TB, target string, pk bool, inLenFn func() int, repro func() map[string]any, fn func()) {
+	t.Helper()
+	var m0, m1 runtime.MemStats
+	runtime.ReadMemStats(&m0)
+	t0 := time.Now()
+	pv, stack := protect(fn)
+	dur := time.Since(t0)
+	runtime.ReadMemStats(&m1)
+	total := m1.TotalAlloc - m0.TotalAlloc
+	alloc := total
+	what := "allocated"
+	if pk {
+		alloc = total - (smallBytes(&m1) - smallBytes(&m0))
+		what = "allocated in objects > 19 KiB"
+	}
+	inLen := inLenFn()
+
+	if pv != nil {
+		r := repro()
+		r["replay"] = cur.describe()
+		r["target"] = target
+		r["panic"] = fmt.Sprint(pv)
+		r["stack"] = stack
+		evid.Fail(t, "panic-"+target, r, "%s panicked on %d input bytes: %v  [%s]", target, inLen, pv, stack)
+		return
+	}
+	if alloc > allocBound(inLen) {
+		r := repro()
+		r["replay"] = cur.describe()
+		r["target"] = target
+		r["allocated"] = alloc
+		r["allocated_total"] = total
+		r["bound"] = allocBound(inLen)
+		r["input_len"] = inLen
+		evid.Fail(t, "alloc-"+target, r, "%s %s %d bytes for %d input bytes (bound 1 MiB + 256*len = %d)", target, what, alloc, inLen, allocBound(inLen))
+		return
+	}
+	if dur > timeBudget(inLen) {
+		slow(t, target, inLen, repro, fn, dur)
+	}
+	if !fuzzing {
+		statMu.Lock()
+		if inLen >= 64 {
+			if r := float64(total) / float64(inLen); r > maxRatio[target] {
+				maxRatio[target] = r
+				evid.Metric("max_alloc_per_byte/"+target, float64(int(r*10))/10)
+			}
+		}
+		if inLen >= 256 {
+			if r := float64(dur.Nanoseconds()) / float64(inLen); r > maxNsB[target] {
+				maxNsB[target] = r
+				evid.Metric("max_ns_per_byte/"+target, float64(int(r)))
+			}
+		}
+		statMu.Unlock()
+	}
+}
+
+// slow: time is never a verdict.  Re-run three times; if it stays over budget
+// the case is written out and the run becomes INCONCLUSIVE (exit 2).
+func slow(t TB, target string, inLen int, repro func() map[string]any, fn func(), first time.Duration) {
+	again := 0
+	for i := 0; i < 3; i++ {
+		t0 := time.Now()
+		protect(fn)
+		if time.Since(t0) > timeBudget(inLen) {
+			again++
+		}
+	}
+	evid.Count("slow-call/"+target, 1)
+	if again == 3 && !fuzzing {
+		r := repro()
+		r["target"] = target
+		r["first_duration_ms"] = first.Milliseconds()
+		evid.InfraNote("slow call (inconclusive, not a verdict): %s took %v on %d bytes and stayed over budget 3 times; case: %v", target, first, inLen, r)
+	}
+}
+
+// ---- known findings -----------------------------------------------------------
+
+const (
+	kfLie      = "F7a-lying-length-alloc"
+	kfIndef    = "F7b-unwrap-indefinite-panic"
+	kfNilDG14  = "F8a-ca-evidence-missing-dg14"
+	kfSsc      = "F8b-ca-evidence-oversized-ssc"
+	kfKeyID    = "F9-ca-keyid-nil"
+	kfOid      = "F10-oid-string-panic"
+	kfString   = "F16-tlv-string-amplification"
+	kfAltCurve = "F17-ecdsa-altcurve-invalid-point-panic"
+)
+
+var (
+	openMu    sync.Mutex
+	openCache = map[string]bool{}
+)
+
+func isOpen(key string) bool {
+	openMu.Lock()
+	defer openMu.Unlock()
+	v, ok := openCache[key]
+	if !ok {
+		v = evid.Open(prop, key)
+		openCache[key] = v
+	}
+	return v
+}
+
+// excluded reports (and counts) that the current case falls into the input
+// class of an OPEN known finding and must be skipped.  For a finding that is
+// not open (fixed) it returns false: the case is generated and checked.
+func excluded(key string) bool {
+	if isOpen(key) {
+		if !fuzzing {
+			evid.Excluded(key)
+		}
+		return true
+	}
+	return false
+}
+
+// lieMin: a definite length of at least this many bytes that exceeds the
+// remaining input defines the F7a class (smaller over-declarations cannot
+// break the 1 MiB base of the allocation bound and are checked normally).
+const lieMin = 512 << 10
+
+// stringLimit: half of the allocation bound is the budget granted to the
+// String() rendering before a tree counts as belonging to the F16 class.
+func stringLimit(inLen int) int64 { return int64(allocBound(inLen) / 2) }
+
+// record one evaluated case in the evidence (not while fuzzing: the worker
+// processes do not write evidence and must not grow a hash set).
+func record(group, genClass string, stage int, input []byte) {
+	if fuzzing {
+		return
+	}
+	if stage < 0 {
+		return // excluded by a known finding (counted separately)
+	}
+	evid.Case(group+"/"+genClass, stage >= 1, fnvKey(input), nil)
+	if stage >= 1 {
+		evid.Count("past-first-stage/"+group, 1)
+	}
+}
+
+func fnvKey(b []byte) string {
+	var h uint64 = 14695981039346656037
+	for _, c := range b {
+		h ^= uint64(c)
+		h *= 1099511628211
+	}
+	return fmt.Sprintf("%x/%d", h, len(b))
 }
